@@ -145,6 +145,49 @@ theorem fwrite_schedule_complete (skip eintr cap : Nat) (n : Option Nat) (buf : 
     (fwriteLoop (schedule skip eintr cap n buf.length) buf).1 = buf :=
   fwrite_complete _ _ (schedule_good skip eintr cap n buf.length hc).1 (schedule_good skip eintr cap n buf.length hc).2
 
+theorem good_replicate_took (k c : Nat) (hc : 0 < c) : ∀ a ∈ List.replicate k (Ans.took c), Good a := by
+  intro a ha; rw [List.eq_of_mem_replicate ha]; exact hc
+
+theorem tooks_append (xs ys : List Ans) : tooks (xs ++ ys) = tooks xs + tooks ys := by
+  induction xs with
+  | nil => simp [tooks]
+  | cons x xs ih => cases x <;> simp [tooks, ih] <;> omega
+
+/-- ... and with the interruptions in the MIDDLE of the transfer (`scheduleAfter`): an EINTR after part of the buffer has gone out is
+    answered by trying again with the rest, not by giving up -/
+theorem fwrite_scheduleAfter_complete (skip after eintr cap : Nat) (n : Option Nat) (buf : List Byte) (hc : 0 < cap) :
+    (fwriteLoop (scheduleAfter skip after eintr cap n buf.length) buf).1 = buf := by
+  have hS : 0 < SENSIBLE := by decide
+  obtain ⟨g, l⟩ := schedule_good 0 eintr cap (n.map (· - after)) buf.length hc
+  apply fwrite_complete
+  · intro a ha
+    unfold scheduleAfter at ha
+    rcases List.mem_append.1 ha with h | h
+    · rcases List.mem_append.1 h with h | h
+      · exact good_replicate_took _ _ hS a h
+      · rcases List.mem_append.1 h with h | h
+        · exact good_replicate_took _ _ hc a h
+        · exact good_replicate_took _ _ hS a h
+    · exact g a h
+  · unfold scheduleAfter
+    rw [tooks_append]
+    omega
+
+/-- the rule "an interrupted call is tried again only while nothing has been transferred yet" (own mutation c2) gives up in the middle -/
+def fwriteEintrFirstOnly : List Ans → List Byte → Bool → List Byte × Nat
+  | _, [], _ => ([], 0)
+  | [], _ :: _, _ => ([], 1)
+  | .eintr :: os, buf, started => if started then ([], 1) else ((fwriteEintrFirstOnly os buf started).1, (fwriteEintrFirstOnly os buf started).2 + 1)
+  | .fail :: _, _ :: _, _ => ([], 1)
+  | .took n :: os, b :: bs, _ =>
+    let k := min n (min (b :: bs).length SENSIBLE)
+    if k = 0 then ([], 1)
+    else ((b :: bs).take k ++ (fwriteEintrFirstOnly os ((b :: bs).drop k) true).1, (fwriteEintrFirstOnly os ((b :: bs).drop k) true).2 + 1)
+
+theorem eintr_first_only_rule_differs :
+    (fwriteEintrFirstOnly (scheduleAfter 0 1 1 2 none 5) [1, 2, 3, 4, 5] false).1 = [1, 2] ∧
+    (fwriteLoop (scheduleAfter 0 1 1 2 none 5) [1, 2, 3, 4, 5]).1 = [1, 2, 3, 4, 5] := by decide
+
 /-- the loop of the seeded regression (every pass re-sends the head of the buffer) is told apart by the very first short transfer -/
 theorem restart_rule_differs :
     (fwriteRestart [.took 1, .took 8] [1, 2, 3] 3).1 = [1, 1, 2] ∧ (fwriteLoop [.took 1, .took 8] [1, 2, 3]).1 = [1, 2, 3] := by decide
@@ -154,5 +197,6 @@ example : fwriteLoop [.took 2, .eintr, .took 1, .took 9] [10, 20, 30, 40, 50] = 
 example : fwriteLoop (schedule 0 2 3 (some 2) 8) [1, 2, 3, 4, 5, 6, 7, 8] = ([1, 2, 3, 4, 5, 6, 7, 8], 5) := by decide
 example : freadLoop [.took 2, .took 2, .took 2] [1, 2, 3] 5 = ([1, 2, 3], 3) := by decide
 example : (∀ a ∈ [Ans.took 2, .eintr, .took 1], Good a) := by simp [Good]
+example : fwriteLoop (scheduleAfter 0 2 2 3 (some 3) 20) (List.range 20) = (List.range 20, 6) := by decide
 
 end Sf.C07ShortIo
